@@ -132,6 +132,10 @@ FIXED = [
     ("C17", "3b4bb62", "`new Float64Array([NaN, Infinity]).join()` was 'nan,inf': elements printed with the host's str()"),
     ("C18", "b952845", "`parseInt('0x10', 10)` was 16 (ECMAScript: 0): the 0x prefix switched to base 16 whatever radix was passed"),
     ("C17", "1c4bbcb", "`[[2],[1]].sort()` stayed [[2],[1]]: the default order compared every object as '[object Object]'"),
+    ("C16", "5f9722b", "`'abc'.replace(/b/, '[$1]')` was 'a[]c' (ECMAScript: 'a[$1]c', the pattern has no capture 1), `$\u0060` and `$'` were not expanded, `$01` was not capture 1, text substituted for `$&` was read again for `$1`"),
+    ("C20", "5f9722b", "`'aXbXc'.replaceAll('X', \"$'\")` kept the two characters `$'`; `'$1'.replace(/(\\$)1/, '[$&]')` expanded the `$1` inside the substituted match"),
+    ("C20", "3750543", "`var r=/b/gu; r.test('\\u{1F600}b'); r.lastIndex` was 2 where exec leaves 3: test() had its own copy of the bookkeeping without the UTF-16 conversion of unicode mode"),
+    ("C08", "0f27ed1", "`Object.create(p, {x: {value: 5}}).x` ran the getter of p (own data did not shadow an inherited accessor); `{get x(){return 2}, x: 1}.x` was 2; `delete o.x` kept an accessor; `'x' in {get x(){}}` was false"),
 ]
 
 
